@@ -139,7 +139,7 @@ def _thread_no(th):
     return int(m.group(1)) if m else 0
 
 
-def run_schedule(shape, nthreads, schedule, stall=0, timeout=20.0):
+def run_schedule(shape, nthreads, schedule, stall=0, timeout=6.0):
     """Force `schedule` (list of 1-based worker indices) onto BilinearForm(nthreads).assemble.  Returns the event."""
     import skfem as fem
     ub, vb = bases(shape)
@@ -205,7 +205,10 @@ def run_schedule(shape, nthreads, schedule, stall=0, timeout=20.0):
                         gate.cv.wait(0.005)
                 gate.go_inside.add(th)
                 gate.cv.notify_all()
-                while gate.phase.get(th) in ('inside', 'running') and th.is_alive() and time.time() < t_end:
+                # wait until the thread has written its slot: it re-enters a kernel, or ends.  A thread that keeps
+                # running without doing either (e.g. the caller's own thread waiting in join) is not waited for.
+                t_w = time.time() + 0.25
+                while gate.phase.get(th) in ('inside', 'running') and th.is_alive() and time.time() < min(t_end, t_w):
                     gate.cv.wait(0.0005)
         gate.free = True
         gate.cv.notify_all()
@@ -236,8 +239,17 @@ def run_schedule(shape, nthreads, schedule, stall=0, timeout=20.0):
     return ev
 
 
+_TIMEOUTS = [0]
+
+
 def execute(rec):
-    return [run_schedule(rec['shape'], rec['nthreads'], rec['sched'], rec.get('stall', 0))]
+    if _TIMEOUTS[0] >= 5:
+        # the assembler hangs under forced schedules: do not spend the budget on more of the same
+        return []
+    ev = run_schedule(rec['shape'], rec['nthreads'], rec['sched'], rec.get('stall', 0))
+    if ev['err'] == 'Timeout':
+        _TIMEOUTS[0] += 1
+    return [ev]
 
 
 def scenario(sid, rec):
